@@ -498,21 +498,26 @@ fn pass_x4(text: String, names: &[String], add_param: bool) -> Result<(String, u
 struct LoopFinder {
     // (insert position before body `{`, position right after body `{`)
     loops: Vec<(usize, usize)>,
+    // for `for` loops: start of the iterator expression (to name the ghost iterator `vxit`)
+    for_iter_pos: Vec<Option<usize>>,
 }
 impl<'ast> Visit<'ast> for LoopFinder {
     fn visit_expr_while(&mut self, w: &'ast syn::ExprWhile) {
         let (s, e) = rng(w.body.brace_token.span.open());
         self.loops.push((s, e));
+        self.for_iter_pos.push(None);
         syn::visit::visit_expr_while(self, w);
     }
     fn visit_expr_for_loop(&mut self, w: &'ast syn::ExprForLoop) {
         let (s, e) = rng(w.body.brace_token.span.open());
         self.loops.push((s, e));
+        self.for_iter_pos.push(Some(rng(w.expr.span()).0));
         syn::visit::visit_expr_for_loop(self, w);
     }
     fn visit_expr_loop(&mut self, w: &'ast syn::ExprLoop) {
         let (s, e) = rng(w.body.brace_token.span.open());
         self.loops.push((s, e));
+        self.for_iter_pos.push(None);
         syn::visit::visit_expr_loop(self, w);
     }
     fn visit_expr_closure(&mut self, _c: &'ast syn::ExprClosure) {}
@@ -567,7 +572,7 @@ fn pass_x3(text: String, ex: &Extract, probes: bool, probe_ctr: &mut usize) -> R
         edits.push((body_open_s, body_open_s, sig_ins));
     }
     // loops
-    let mut lf = LoopFinder { loops: vec![] };
+    let mut lf = LoopFinder { loops: vec![], for_iter_pos: vec![] };
     lf.visit_block(&f.block);
     let max_loop = ex.clauses.iter().filter_map(|c| c.loop_no).max().unwrap_or(0);
     if max_loop > lf.loops.len() {
@@ -582,6 +587,10 @@ fn pass_x3(text: String, ex: &Extract, probes: bool, probe_ctr: &mut usize) -> R
             }
             let refs: Vec<&Clause> = cs2.iter().collect();
             edits.push((*ls, *ls, format!("\n{}        ", clause_block(&refs, "        "))));
+            // a `for` loop with an invariant gets its ghost iterator named `vxit` (X3)
+            if let Some(Some(ip)) = lf.for_iter_pos.get(k) {
+                edits.push((*ip, *ip, "vxit: ".to_string()));
+            }
         }
         if probes {
             *probe_ctr += 1;
